@@ -46,6 +46,20 @@ pub struct Case {
     pub prior: usize,
     pub forgery: Forgery,
     pub stateless: bool,
+    /// output buffer offered for the forged delivery: 0 ample, 1 exactly message length - 16
+    /// (empty for a 16-byte message), 2 message length, 3 one byte more than the payload
+    #[serde(default)]
+    pub fbuf: u8,
+}
+
+fn forged_buf(kind: u8, msg_len: usize) -> Vec<u8> {
+    let n = match kind % 4 {
+        0 => 70000,
+        1 => msg_len.saturating_sub(16),
+        2 => msg_len,
+        _ => msg_len.saturating_sub(15),
+    };
+    vec![0u8; n]
 }
 
 fn oracle(c: &Case, acc: &mut Acc) -> CaseResult {
@@ -58,7 +72,7 @@ fn oracle(c: &Case, acc: &mut Acc) -> CaseResult {
     }
     let pair = drive_to(spec, spec.n_msgs())?;
     let payload = expand(spec.key_seed, 21, c.plen);
-    let what = format!("{name} [{:?}/{:?}] {} stateless={} payload {} prior {} forgery {:?}", spec.backend_i, spec.backend_r, if c.r_to_i { "r->i" } else { "i->r" }, c.stateless, c.plen, c.prior, c.forgery);
+    let what = format!("{name} [{:?}/{:?}] {} stateless={} payload {} prior {} forgery {:?} fbuf {}", spec.backend_i, spec.backend_r, if c.r_to_i { "r->i" } else { "i->r" }, c.stateless, c.plen, c.prior, c.forgery, c.fbuf % 4);
     if c.stateless {
         let ti = pair.i.into_stateless_transport_mode().map_err(|x| Fail::setup(e(&x)))?;
         let tr = pair.r.into_stateless_transport_mode().map_err(|x| Fail::setup(e(&x)))?;
@@ -114,9 +128,9 @@ fn oracle(c: &Case, acc: &mut Acc) -> CaseResult {
             acc.skip("forgery equals the genuine message");
             return Ok(());
         }
-        let mut buf = vec![0u8; 70000];
+        let mut buf = forged_buf(c.fbuf, forged.len());
         let res = r.read_message(n2, &forged, &mut buf);
-        ensure!(res.is_err(), "{what}: forged/misdirected delivery (nonce {n2} for a message written under {n}) was ACCEPTED: {res:?}");
+        ensure!(res.is_err(), "{what}: forged/misdirected delivery (nonce {n2} for a message written under {n}, output buffer {} bytes) was ACCEPTED: {res:?}", buf.len());
         let got = sl_read(r, n, &genuine, c.plen).map_err(|x| Fail::new(format!("{what}: the genuine message is rejected: {}", e(&x))))?;
         ensure!(got == payload, "{what}: genuine message returned a different payload");
     } else {
@@ -174,9 +188,9 @@ fn oracle(c: &Case, acc: &mut Acc) -> CaseResult {
             },
         };
         if forged != genuine {
-            let mut buf = vec![0u8; 70000];
+            let mut buf = forged_buf(c.fbuf, forged.len());
             let res = r.read_message(&forged, &mut buf);
-            ensure!(res.is_err(), "{what}: forged delivery was ACCEPTED: {res:?}");
+            ensure!(res.is_err(), "{what}: forged delivery (output buffer {} bytes) was ACCEPTED: {res:?}", buf.len());
         }
         let got = t_read(r, &genuine, c.plen).map_err(|x| Fail::new(format!("{what}: the genuine message is rejected (after the forged delivery): {}", e(&x))))?;
         ensure!(got == payload, "{what}: genuine message returned a different payload");
@@ -253,9 +267,13 @@ pub fn run(ctx: &Ctx) {
                 }
                 f.extend([Forgery::Reflect, Forgery::OtherSession, Forgery::Early, Forgery::Replay, Forgery::Garbage(total), Forgery::Garbage(16), Forgery::Garbage(0)]);
                 f.dedup();
-                for forgery in f {
+                for (fi, forgery) in f.into_iter().enumerate() {
                     for stateless in [false, true] {
-                        cases.push(Case { spec: spec.clone(), r_to_i, plen: *plen, prior, forgery: forgery.clone(), stateless });
+                        // all four buffer relations for the short payloads, rotating for the rest
+                        let fbufs: Vec<u8> = if *plen <= 1 { vec![0, 1, 2, 3] } else { vec![((fi + ci) % 4) as u8] };
+                        for fbuf in fbufs {
+                            cases.push(Case { spec: spec.clone(), r_to_i, plen: *plen, prior, forgery: forgery.clone(), stateless, fbuf });
+                        }
                     }
                 }
             }
@@ -265,11 +283,11 @@ pub fn run(ctx: &Ctx) {
                     continue;
                 }
                 for b in 0..64 {
-                    cases.push(Case { spec: spec.clone(), r_to_i, plen: 5, prior: 0, forgery: Forgery::Nonce(*base, base ^ (1u64 << b)), stateless: true });
+                    cases.push(Case { spec: spec.clone(), r_to_i, plen: if b % 8 == 0 { 0 } else { 5 }, prior: 0, forgery: Forgery::Nonce(*base, base ^ (1u64 << b)), stateless: true, fbuf: (b % 4) as u8 });
                 }
             }
             for (a, b) in [(0u64, 1u64), (1, 0), (0xFFFF_FFFF, 0x1_0000_0000), (0x1_0000_0000, 0), (u64::MAX - 1, u64::MAX), (u64::MAX - 1, 0), (0, u64::MAX), (1 << 32, 1 << 33), (256, 1)] {
-                cases.push(Case { spec: spec.clone(), r_to_i, plen: 5, prior: 0, forgery: Forgery::Nonce(a, b), stateless: true });
+                cases.push(Case { spec: spec.clone(), r_to_i, plen: 5, prior: 0, forgery: Forgery::Nonce(a, b), stateless: true, fbuf: (a % 4) as u8 });
             }
         }
     }
@@ -282,10 +300,10 @@ pub fn run(ctx: &Ctx) {
         if !thorough && ci % 5 != 0 {
             continue;
         }
-        for plen in if thorough { vec![0usize, 7, 64] } else { vec![7usize] } {
+        for plen in if thorough { vec![0usize, 7, 64] } else { vec![0usize, 7] } {
             for p in 0..plen + 16 {
                 for b in 0..8u8 {
-                    ex.push(Case { spec: spec.clone(), r_to_i: ci % 2 == 1, plen, prior: ci % 2, forgery: Forgery::Flip(p, b), stateless: ci % 3 == 0 });
+                    ex.push(Case { spec: spec.clone(), r_to_i: ci % 2 == 1, plen, prior: ci % 2, forgery: Forgery::Flip(p, b), stateless: ci % 3 == 0, fbuf: ((p + b as usize) % 4) as u8 });
                 }
             }
         }
@@ -298,7 +316,7 @@ pub fn run(ctx: &Ctx) {
         ctx.tier.pick(8000, 150_000),
         || {
             let cfgs = cfgs2.clone();
-            (any::<u16>(), any::<bool>(), 0usize..300, 0usize..4, any::<u64>(), any::<u64>(), 0u8..6, any::<bool>()).prop_map(move |(ci, r_to_i, plen, prior, a, b, kind, stateless)| {
+            (any::<u16>(), any::<bool>(), prop_oneof![3 => Just(0usize), 10 => 0usize..300], 0usize..4, any::<u64>(), any::<u64>(), 0u8..6, any::<bool>()).prop_map(move |(ci, r_to_i, plen, prior, a, b, kind, stateless)| {
                 let spec = cfgs[pick(ci, cfgs.len())].clone();
                 let total = plen + 16;
                 let forgery = match kind {
@@ -313,7 +331,7 @@ pub fn run(ctx: &Ctx) {
                     },
                 };
                 let stateless = stateless || matches!(forgery, Forgery::Nonce(..));
-                Case { spec, r_to_i, plen, prior, forgery, stateless }
+                Case { spec, r_to_i, plen, prior, forgery, stateless, fbuf: (a >> 60) as u8 }
             })
         },
         oracle,
